@@ -214,6 +214,16 @@ def matches_known(prop, finding):
     return None
 
 
+def matches_known_extra(prop, h):
+    for k in known_findings():
+        if k.get("status") != "open" or prop not in k.get("properties", []):
+            continue
+        sig = k.get("signature", {})
+        if sig.get("extra_kind") == h.get("kind") and re.search(sig.get("reason_regex", "$^"), (h.get("finding") or {}).get("reason", "")):
+            return k
+    return None
+
+
 def judge_and_compare(out, prop, lines, st, mism, cfg, source):
     """feed one executed sequence to the oracle and classify the correspondence mismatches; returns
     (oracle findings for prop, in-slice mismatches)"""
@@ -352,6 +362,12 @@ def run(prop, tier, seed, scratch, build):
         if reported >= 2:
             break
     for h in extra_hits:
+        k = matches_known_extra(prop, h)
+        if k:
+            line = "%s (%s)" % (k["text"], k["id"])
+            if line not in out.known:
+                out.known.append(line)
+            continue
         out.violation(h, nofail=(h.get("kind") == "no-failing-input-found"))
         reported += 1
     if reported == 0 and (corr_hits or broken):
